@@ -185,3 +185,15 @@ Theorem C03_total_refuted_N4 :
     (3 <= dim -> out_sdim None e0 <> None) /\
     from_sequence jv_eqb JNull es dim None None = Err EValue.
 Proof. exact merge_total_refuted_N4. Qed.
+
+(** Why "all inputs share the slice dimension of the result" is a hypothesis (open finding N11): with a [slice_dim]
+    argument different from the inputs' own slice dimension the result is not even valid. *)
+Theorem C03_merge_den_refuted_N11 :
+  exists (es : list (ext jv)) e0 dim sd r,
+    hd_error es = Some e0 /\ 2 <= length es /\
+    (forall x, In x es -> valid x /\ shape (hdr_of x) = shape (hdr_of e0)) /\
+    from_sequence jv_eqb JNull es dim None sd = Ok r /\
+    axis_of (out_sdim sd e0) dim = Some AxS /\
+    trailing1b (shape (hdr_of r)) = false /\
+    lookup_e r kA = Some (GSlices, [JInt 1; JInt 2; JInt 2; JInt 2]) /\ ~ valid r.
+Proof. exact merge_den_refuted_N11. Qed.
